@@ -32,7 +32,7 @@ FILE_TOKEN = '<FILE>'
 # ----------------------------------------------------------------------------- generator
 def gen_case(r):
   """A program spec: facts, derived predicates P1.. (each reads earlier ones), grounding, history."""
-  case = {'db': r.choice(['home', 'home', 'db'])}
+  case = {'db': r.choice(['home', 'home', 'db', 'test'])}
   case['D'] = [[r.randint(0, 3), r.randint(0, 3)] for _ in range(r.randint(1, 4))]
   case['E'] = [[r.randint(0, 3), r.randint(0, 3)] for _ in range(r.randint(1, 3))]
   m = r.randint(2, 5)
@@ -65,7 +65,7 @@ def gen_case(r):
   for p in preds:
     if p['ground']:
       if case['db'] == 'db' or r.random() < 0.4:
-        p['table'] = '%s.t_%s' % ('db' if case['db'] == 'db' else 'logica_home', p['name'].lower())
+        p['table'] = '%s.t_%s' % ({'db': 'db', 'home': 'logica_home', 'test': 'logica_test'}[case['db']], p['name'].lower())
     elif r.random() < 0.3:
       p['plan'] = r.choice(['with', 'nowith'])
   case['preds'] = preds
@@ -108,7 +108,7 @@ def rule_text(p, rule):
 def program(case, grounded=True, file_path=FILE_TOKEN):
   lines = ['@Engine("sqlite");']
   if grounded:
-    lines.append('@AttachDatabase("%s", "%s");' % ('logica_home' if case['db'] == 'home' else 'db', file_path))
+    lines.append('@AttachDatabase("%s", "%s");' % ({'db': 'db', 'home': 'logica_home', 'test': 'logica_test'}[case['db']], file_path))
   for n in ('D', 'E'):
     for row in case[n]:
       lines.append('%s(%d, %d);' % (n, row[0], row[1]))
@@ -123,7 +123,7 @@ def program(case, grounded=True, file_path=FILE_TOKEN):
 
 
 def table_of(case, p):
-  return p['table'] or ('logica_home.%s' % p['name'])
+  return p['table'] or ('%s.%s' % ('logica_test' if case['db'] == 'test' else 'logica_home', p['name']))
 
 
 # ----------------------------------------------------------------------------- dependency graph from the real parser
